@@ -15,6 +15,8 @@ var models map[string]modelFn
 
 // modelEffects: heap components a model may write (for the static write-set analysis).
 var modelEffects = map[string][]string{
+	"time.Now":   {"ghostbv.clock"},
+	"time.Since": {"ghostbv.clock"},
 	"encoding/json.Unmarshal": {"*"},
 	"google.golang.org/protobuf/types/known/anypb.New": {"ghost.marshalfail"},
 	"(encoding/binary.bigEndian).PutUint16":    {"E:uint8"},
@@ -56,6 +58,15 @@ func init() {
 		"context.WithDeadline":                     mContextWith,
 		"context.Background":                       mNonNilIface,
 		"context.TODO":                             mNonNilIface,
+		"(*sync.Map).Load":                         mSyncMapLoad,
+		"(*sync.Map).Store":                        mSyncMapStore,
+		"(*sync.Map).Delete":                       mSyncMapDelete,
+		"time.Now":                                 mTimeNow,
+		"time.Since":                               mTimeSince,
+		"(time.Time).IsZero":                       func(x *Exec, st *State, a []*Val, s *types.Signature, p token.Pos) *Val { return scalar(types.Typ[types.Bool], eq(a[0].S, "(_ bv0 64)"), "Bool") },
+		"(time.Time).After":                        func(x *Exec, st *State, a []*Val, s *types.Signature, p token.Pos) *Val { return scalar(types.Typ[types.Bool], "(bvsgt "+a[0].S+" "+a[1].S+")", "Bool") },
+		"(time.Time).Before":                       func(x *Exec, st *State, a []*Val, s *types.Signature, p token.Pos) *Val { return scalar(types.Typ[types.Bool], "(bvslt "+a[0].S+" "+a[1].S+")", "Bool") },
+		"(time.Time).Sub":                          func(x *Exec, st *State, a []*Val, s *types.Signature, p token.Pos) *Val { return scalar(s.Results().At(0).Type(), "(bvsub "+a[0].S+" "+a[1].S+")", bvSort(64)) },
 	}
 }
 
@@ -282,4 +293,121 @@ func mAnyNew(x *Exec, st *State, a []*Val, s *types.Signature, p token.Pos) *Val
 		x.sc.assume(implies(not(eq(ref, "0")), eq("(uf_specAnySrc "+ref+")", x.intAsGo(snap))))
 	}
 	return &Val{K: KTuple, T: s.Results(), E: []*Val{anyV, errV}}
+}
+
+// ---- sync.Map ----
+//
+// A sync.Map embedded at (root type, field path) of object ref is modelled as a ghost map from keys
+// to interface values. Keys must be statically typed integers (zero-extended to 64 bits) or strings
+// at each call site. Each operation is one atomic step (the type's documented guarantee); the
+// single-goroutine view used here says nothing about interleavings between operations.
+
+type smComps struct {
+	pres, tag, ref       *HeapSym
+	pk, tk, rk           string
+	pci, tci, rci        compInfo
+	ks                   string
+}
+
+func (x *Exec) smKeys(root types.Type, path []int, str bool) (pk, tk, rk, ks string) {
+	base := "SM|" + typeKey(root) + "|" + pathString(root, path)
+	ks = bvSort(64)
+	if str {
+		base += "#s"
+		ks = "Str"
+	}
+	pk, tk, rk = base+"|p", base+"|t", base+"|r"
+	x.keyInfo[pk] = compInfo{sort: "(Array Int (Array " + ks + " Bool))"}
+	x.keyInfo[tk] = compInfo{sort: "(Array Int (Array " + ks + " Int))"}
+	x.keyInfo[rk] = compInfo{sort: "(Array Int (Array " + ks + " Int))", ref: true, dim: 2}
+	return
+}
+
+func (x *Exec) smComps(st *State, m *Val, str bool) *smComps {
+	if m.K != KPtr || m.P.Kind != PHeap {
+		panic(unsupported("sync.Map that is not a field of a heap object"))
+	}
+	c := &smComps{}
+	c.pk, c.tk, c.rk, c.ks = x.smKeys(m.P.Root, m.P.Path, str)
+	c.pci, c.tci, c.rci = x.keyInfo[c.pk], x.keyInfo[c.tk], x.keyInfo[c.rk]
+	c.pres = x.heapSym(st, c.pk, c.pci)
+	c.tag = x.heapSym(st, c.tk, c.tci)
+	c.ref = x.heapSym(st, c.rk, c.rci)
+	return c
+}
+
+// smKey: the key term of an interface-typed key argument whose static type is known.
+func (x *Exec) smKey(k *Val) (string, bool) {
+	if k.K == KIface {
+		if k.box == nil {
+			panic(unsupported("sync.Map key of statically unknown type"))
+		}
+		k = k.box
+	}
+	if k.K != KScalar {
+		panic(unsupported("sync.Map key %s", k))
+	}
+	if k.Srt == "Str" {
+		return k.S, true
+	}
+	return x.convNum(k.S, k.Srt, bvSort(64), false, false), false
+}
+
+func mSyncMapLoad(x *Exec, st *State, a []*Val, s *types.Signature, p token.Pos) *Val {
+	k, str := x.smKey(a[1])
+	c := x.smComps(st, a[0], str)
+	m := a[0].P.Ref
+	ok := x.sc.defineB(x, "smok", "Bool", sel(sel(x.use(c.pres), m), k))
+	v := &Val{K: KIface, T: s.Results().At(0).Type(), E: []*Val{
+		scalar(nil, ite(ok, sel(sel(x.use(c.tag), m), k), "0"), "Int"),
+		scalar(nil, ite(ok, sel(sel(x.use(c.ref), m), k), "0"), "Int")}}
+	x.sc.assume(implies(x.guard(st), implies(ok, "(> "+sel(sel(x.use(c.tag), m), k)+" 0)")))
+	return &Val{K: KTuple, T: s.Results(), E: []*Val{v, scalar(types.Typ[types.Bool], ok, "Bool")}}
+}
+
+func mSyncMapStore(x *Exec, st *State, a []*Val, s *types.Signature, p token.Pos) *Val {
+	k, str := x.smKey(a[1])
+	c := x.smComps(st, a[0], str)
+	m := a[0].P.Ref
+	v := a[2]
+	x.materialize(st, v)
+	pa, ta, ra := x.use(c.pres), x.use(c.tag), x.use(c.ref)
+	x.setHeap(st, c.pk, c.pci, sto(pa, m, sto(sel(pa, m), k, "true")))
+	x.setHeap(st, c.tk, c.tci, sto(ta, m, sto(sel(ta, m), k, v.E[0].S)))
+	x.setHeap(st, c.rk, c.rci, sto(ra, m, sto(sel(ra, m), k, v.E[1].S)))
+	return nil
+}
+
+func mSyncMapDelete(x *Exec, st *State, a []*Val, s *types.Signature, p token.Pos) *Val {
+	k, str := x.smKey(a[1])
+	c := x.smComps(st, a[0], str)
+	m := a[0].P.Ref
+	pa := x.use(c.pres)
+	x.setHeap(st, c.pk, c.pci, sto(pa, m, sto(sel(pa, m), k, "false")))
+	return nil
+}
+
+// ---- time ----
+// time.Time is an opaque signed 64-bit instant; a ghost clock makes successive time.Now() results
+// monotone. time.Since(t) reads the clock as well.
+
+func (x *Exec) clockNow(st *State) string {
+	key := "G|clock"
+	ci := compInfo{sort: bvSort(64)}
+	x.keyInfo[key] = ci
+	cur := x.use(x.heapSym(st, key, ci))
+	now := x.sc.declare("now", bvSort(64))
+	// instants are non-negative and far from the 64-bit boundary, so differences do not wrap
+	x.sc.assume(and("(bvsge "+now+" "+cur+")", "(bvsge "+now+" (_ bv0 64))", "(bvslt "+now+" (_ bv4611686018427387904 64))"))
+	x.setHeap(st, key, ci, now)
+	return now
+}
+
+func mTimeNow(x *Exec, st *State, a []*Val, s *types.Signature, p token.Pos) *Val {
+	return scalar(s.Results().At(0).Type(), x.clockNow(st), bvSort(64))
+}
+
+func mTimeSince(x *Exec, st *State, a []*Val, s *types.Signature, p token.Pos) *Val {
+	now := x.clockNow(st)
+	return scalar(s.Results().At(0).Type(), "(bvsub "+now+" "+a[0].S+")", bvSort(64))
 }
